@@ -9,6 +9,8 @@ collections. `keysOk P` says that a pattern's byte length is zero iff its key is
 every real input.
 -/
 import Daac.Proofs.BuildCor
+import Daac.Proofs.Total
+import Daac.Proofs.Total2
 namespace Daac.Props.C10
 open Daac
 variable {V : Type}
@@ -37,11 +39,8 @@ theorem build_invalid_err (variant : Variant) (cfg : Cfg) (P : List (LPat V)) (h
        (e = .duplicatePattern ∧ ¬ (P.map (·.key)).Nodup)) :=
   buildDA_invalid_err variant cfg P h hn hinv
 
-/-- `build_ok_iff_partial`: the full-strength statement `(buildDA …).isOk ↔ valid` needs, in
-addition, that the fail/output/layout phases never fail on a valid collection within the size
-limits (`build_total`). That half is NOT proved; it is covered per instance by K-build (the
-model's and the implementation's outcomes agree, and neither reports a panic) on every
-generated collection. What is proved: success ⇒ valid, invalid ⇒ documented error. -/
+/-- `build_ok_iff_partial` (superseded by `build_ok_iff` + `build_total` below, kept for reference):
+success ⇒ valid, invalid ⇒ documented error. -/
 theorem build_ok_iff_partial (variant : Variant) (cfg : Cfg) (P : List (LPat V)) (h : keysOk P)
     (hn : cfg.nfb ≠ 0) :
     ((∃ da, buildDA variant cfg P = .ok da) → (P ≠ [] ∧ (∀ p ∈ P, p.key ≠ []) ∧ (P.map (·.key)).Nodup)) ∧
@@ -55,5 +54,40 @@ theorem build_ok_iff_partial (variant : Variant) (cfg : Cfg) (P : List (LPat V))
 copy is shadowed is a duplicate. (["a","ab","ab"] as labels 1,2.) -/
 example : (buildTrie 2 [(⟨[1], 1, 0⟩ : LPat Nat), ⟨[1, 2], 2, 1⟩, ⟨[1, 2], 2, 2⟩]).toOption.isNone = true := by
   decide
+
+
+/-! ### Totality — construction never panics (model of the whole pipeline) -/
+
+/-- **`build_total`**: for EVERY collection (valid or not), every kind, both variants and every
+`num_free_blocks ≥ 1`, the model of `build_with_values` returns `Ok` or one of the documented
+error kinds — never a panic (no assert, `unwrap`, out-of-range index or `debug_assert` of the
+trie / fail-link / helper / layout code fires). Proofs/Total.lean, on top of the vacant-list
+invariant of the ring-buffer helper (Proofs/HelperLL.lean). -/
+theorem build_total (variant : Variant) (cfg : Cfg) (P : List (LPat V)) (hk : keysOk P)
+    (hnfb : 1 ≤ cfg.nfb) (hbytes : variant = .bytewise → ∀ p ∈ P, ∀ c ∈ p.key, c < 256)
+    (hsz : variant = .charwise → tableLen P < 4294967295) :
+    (∃ da, buildDA variant cfg P = .ok da) ∨ buildDA variant cfg P = .error .invalidArgument ∨
+      buildDA variant cfg P = .error .duplicatePattern ∨
+      buildDA variant cfg P = .error .automatonScale :=
+  buildDA_total variant cfg P hk hnfb hbytes hsz
+
+/-- **`build_ok_iff`, full strength**: within the documented size limits (i.e. when the scale
+error does not occur) construction succeeds PRECISELY on the valid collections — every kind,
+both variants, every `num_free_blocks`. -/
+theorem build_ok_iff (variant : Variant) (cfg : Cfg) (P : List (LPat V)) (hk : keysOk P)
+    (hnfb : 1 ≤ cfg.nfb) (hbytes : variant = .bytewise → ∀ p ∈ P, ∀ c ∈ p.key, c < 256)
+    (hsz : variant = .charwise → tableLen P < 4294967295)
+    (hlim : buildDA variant cfg P ≠ .error .automatonScale) :
+    (∃ da, buildDA variant cfg P = .ok da) ↔
+      (P ≠ [] ∧ (∀ p ∈ P, p.key ≠ []) ∧ (P.map (·.key)).Nodup) :=
+  buildDA_ok_iff variant cfg P hk hnfb hbytes hsz hlim
+
+/-- A valid collection can only fail with the documented size-limit error. -/
+theorem valid_ok_or_scale (variant : Variant) (cfg : Cfg) (P : List (LPat V)) (hk : keysOk P)
+    (hnfb : 1 ≤ cfg.nfb) (hbytes : variant = .bytewise → ∀ p ∈ P, ∀ c ∈ p.key, c < 256)
+    (hsz : variant = .charwise → tableLen P < 4294967295)
+    (hvalid : P ≠ [] ∧ (∀ p ∈ P, p.key ≠ []) ∧ (P.map (·.key)).Nodup) :
+    (∃ da, buildDA variant cfg P = .ok da) ∨ buildDA variant cfg P = .error .automatonScale :=
+  buildDA_valid_ok_or_scale variant cfg P hk hnfb hbytes hsz hvalid
 
 end Daac.Props.C10
